@@ -42,7 +42,9 @@ WORLD_N = {
 
 # unbounded TLAPS lemmas (spec/proofs/ArithLemmas.tla) that back a property's arithmetic clauses
 PROOFS = {
-    'C01': ['FloorSwapKeepsProduct (what an integer-floor swap guarantees)', 'GrossUpperBound (the code formula overshoots y*a/(x+a) by < 1/D)'],
+    'C01': ['GrossExactOutsideWindow (the code formula never exceeds y*a/(x+a) outside the KF-1 window: the known-finding class is exact, for all naturals and all D)',
+            'GrossUpperBound (inside the window the overshoot is < 1/D of a unit before flooring)',
+            'FloorSwapKeepsProduct (what an integer-floor swap guarantees)'],
     'C03': ['ProvideKeepsShareValue', 'WithdrawKeepsShareValue', 'FloorSwapKeepsProduct'],
     'C04': ['RefundNeverMore', 'RefundAtMostDustLess'],
     'C05': ['ShareNeverMore'],
